@@ -52,7 +52,7 @@ FAULTS = [
     Fault("duplicate-label", "duplicate-symbol", E, "[[dup§]]:\tnop", pre=["dup§:\tnop"], where="top"),
     Fault("duplicate-constant", "duplicate-symbol", E, "[[dc§]] = 2", pre=["dc§ = 1"], where="top"),
     Fault("duplicate-label-constant", "duplicate-symbol", E, "[[dl§]] = 2", pre=["dl§:\tnop"], where="top"),
-    Fault("duplicate-local", "duplicate-symbol", E, "[[5$]]:\tnop", pre=["scope§:", "5$:\tnop"], where="top"),
+    Fault("duplicate-local", "duplicate-symbol", E, "[[5$]]:\tnop", pre=["scope§:", "5$:\tnop"], where="adjacent"),
     Fault("duplicate-export", "duplicate-symbol", E, "\t.extern [[ex§]]", pre=["ex§::\tnop"], where="top"),
     Fault("branch-too-far", "branch-out-of-bounds", E, "\t[[br]] .+1000"),
     Fault("sob-forward", "branch-out-of-bounds", E, "\t[[sob]] r1, .+4"),
